@@ -431,13 +431,23 @@ impl Property for C02 {
         c02_check(&c, ctx)
     }
     fn replay(&self, input: &Value, ctx: &mut Ctx) -> Result<(), Failure> {
+        if let Some(v) = input.get("fmt_value").and_then(|x| x.as_u64()) {
+            return super::c02_fmt::replay(v as u16, ctx);
+        }
         c02_check(&case_from_input(input), ctx)
+    }
+    fn exhaustive(&self, _tier: Tier, shard: u64, nshards: u64, ctx: &mut Ctx) -> Result<(), Failure> {
+        // formatters of the number newtypes over their complete domains
+        super::c02_fmt::enumerate(shard, nshards, ctx)
+    }
+    fn exhaustive_claim(&self, _tier: Tier) -> Option<String> {
+        Some("Debug/Display (and keyword_str/protocol_str) of EtherType, ArpHardwareId, ArpOperation, LinuxSllPacketType, LinuxNonstandardEtherType, LinuxSllProtocolType, IpNumber, NdpOptionType and the bounded integer types are rendered for every value of their u16 / u8 domain".into())
     }
     fn describe(&self, tape: &[u8]) -> Value {
         C01.describe(tape)
     }
     fn rule(&self) -> String {
-        "same inputs and entry points as C01 (one placement, `checked` profile: overflow checks and debug assertions on); every entry point + accessor walk runs under catch_unwind; Display, Debug and source() of every error are rendered; every option/extension/NDP iterator is driven to exhaustion with an item bound of len+1 and must then stay exhausted. evaluations = entry-point walks. Non-trivial = generated packet with >=2 layers and a perturbation (rejected behind the first header), or >=2 iterator items; distinct = (start, layer sequence, perturbation set, iterator item bucket)."
+        "same inputs and entry points as C01 (one placement, `checked` profile: overflow checks and debug assertions on); every entry point + accessor walk runs under catch_unwind; Display, Debug and source() of every error are rendered; every option/extension/NDP iterator is driven to exhaustion with an item bound of len+1 and must then stay exhausted. Enumerated besides: the formatters of the number newtypes over all 65 536 / 256 values. evaluations = entry-point walks. Non-trivial = generated packet with >=2 layers and a perturbation (rejected behind the first header), or >=2 iterator items; distinct = (start, layer sequence, perturbation set, iterator item bucket)."
             .into()
     }
     fn assumptions(&self) -> Vec<String> {
